@@ -9,7 +9,7 @@ Record ocall := mkoc { oc_m : string; oc_on : otarget; oc_args : list val }.
 
 Inductive c03case :=
 | COp (op : string) (v : N) (e : env) (fail : bool) (answer : errv)
-      (calls : list ocall) (err : option N) (conn_err : bool) (ret ans : string)
+      (calls : list ocall) (err : option N) (conn_err : bool) (ret ans : list val)
 | CErr (answer : errv) (errno : N)           (* linux.ExtractErrno called directly *)
 (* GetXattr / ListXattrs; drop = k > 0: the connection drops with EOF once the k-th Tread has been sent *)
 | CXattr (is_list : bool) (cs : N) (value : list N) (drop : nat) (walk_err : option errv) (fid : N) (name : string)
@@ -87,7 +87,7 @@ Definition property_holds (c : c03case) : bool :=
   | COp op v e fail answer calls err conn_err ret ans =>
       negb conn_err &&
       (if fail then match err with Some _ => true | None => match calls with [] => true | _ => false end end
-       else String.eqb ret ans && match err with None => true | Some n => local_enosys op end) &&
+       else all2 val_eqb ret ans && match err with None => true | Some n => local_enosys op end) &&
       (if local_enosys op then match calls with [] => true | _ => false end else true) &&
       (* at most one backend call per single-exchange method, named like the operation (Rename/Remove: *At on the parent) *)
       match calls with
